@@ -19,6 +19,8 @@ def be16 (hi lo : UInt8) : Nat := hi.toNat * 256 + lo.toNat
 /-- `(n as u16).to_be_bytes()` for `n < 65536`. -/
 def be16Bytes (n : Nat) : B := [UInt8.ofNat (n / 256), UInt8.ofNat (n % 256)]
 
+deriving instance DecidableEq for Except
+
 /-- Result of a Rust computation that may panic. -/
 inductive Outcome (α : Type) where
   | val : α → Outcome α
@@ -68,7 +70,7 @@ def FixB.ofList (n : Nat) (bs : B) : FixB n :=
 
 theorem FixB.ofList_val {n : Nat} {bs : B} (h : bs.length = n) :
     (FixB.ofList n bs).val = bs := by
-  simp [FixB.ofList, List.take_append_of_le_length (Nat.le_of_eq h.symm), ← h]
+  simp [FixB.ofList, ← h]
 
 theorem FixB.ofList_of_val {n : Nat} (a : FixB n) : FixB.ofList n a.val = a :=
   Subtype.ext (FixB.ofList_val a.property)
